@@ -52,6 +52,23 @@ impl Drop for Scratch {
     }
 }
 
+/// A path that behaves like /dev/full (opens, every write fails with ENOSPC) but is a symbolic
+/// link inside the scratch directory: code under test that renames over or unlinks its output
+/// replaces the link, not the device node (checks run as root; a seeded change that wrote its
+/// output through rename() once replaced /dev/full itself by a regular file).
+pub fn dev_full_link(dir: &std::path::Path, name: &str) -> PathBuf {
+    use std::os::unix::fs::FileTypeExt;
+    let ok = std::fs::metadata("/dev/full").map(|m| m.file_type().is_char_device()).unwrap_or(false)
+        && std::fs::OpenOptions::new().write(true).open("/dev/full").map(|mut f| std::io::Write::write_all(&mut f, b"x").is_err()).unwrap_or(false);
+    if !ok {
+        machinery_fail("/dev/full is not the character device that refuses every write (environment damaged?): restore it with `rm -f /dev/full; mknod -m 666 /dev/full c 1 7`");
+    }
+    let link = dir.join(name);
+    let _ = std::fs::remove_file(&link);
+    std::os::unix::fs::symlink("/dev/full", &link).unwrap_or_else(|e| machinery_fail(&format!("cannot create {:?}: {}", link, e)));
+    link
+}
+
 /// The machinery could not do its job: exit 2, never a verdict.
 pub fn machinery_fail(msg: &str) -> ! {
     println!("MACHINERY-ERROR: {}", msg);
